@@ -344,6 +344,18 @@ def corr(c, tier, rng):
         shape = (2, n // 2) if (n % 2 == 0 and rng.random() < 0.4) else (n,)
         bad = raises(lambda: B.Permute(jnp.asarray(p).reshape(shape)))
         T.add("guard-permute", f"par perm {vlib.ints(p)}", "B", [bad], sorted(p) != list(range(n)), (tuple(p), shape), perm=p, shape=shape)
+    # every sequence over 0..n-1 of length n <= 4 (exhaustive: 1 + 4 + 27 + 256), plus crafted multisets that share min, max and
+    # sum with a genuine permutation (a sort-free "optimised" validity test accepts those)
+    import itertools
+    seqs = [list(t) for n in (1, 2, 3, 4) for t in itertools.product(range(n), repeat=n)]
+    seqs += [[0, 2, 2, 2, 4], [0, 0, 3, 3, 4], [0, 1, 1, 3, 4, 5, 7, 7, 8], [0, 0, 2, 4, 4], [1, 1, 1, 1, 0, 4, 6, 6, 7][:9]]
+    if q:
+        rng.shuffle(seqs)
+        seqs = seqs[:120] + [[0, 0, 3, 3], [0, 2, 2, 2, 4]]
+    for p in seqs:
+        n = len(p)
+        bad = raises(lambda: B.Permute(jnp.asarray(p)))
+        T.add("guard-permute", f"par perm {vlib.ints(p)}", "B", [bad], sorted(p) != list(range(n)), (tuple(p), (n,)), perm=p, shape=(n,))
     T.run()
 
 
